@@ -441,5 +441,7 @@ func runC10(ctx *core.Ctx) {
 	runC10Norm(ctx)
 	runC10Path(ctx)
 	runC10Loads(ctx)
+	runC10Glue(ctx)
+	runC10MergeValidate(ctx)
 	ctx.Res.Exhaustive = true // the small-scope streams above are enumerated completely (see design/C10.md)
 }
